@@ -34,6 +34,8 @@ TOKENS = {
     "2020-01-01T10:00:00": "s", "12:00:00": "s", "1.0 -2.0 0 0": "s", "x.png": "s", "jr://images/x.png": "?",
     "now()": "d", "concat('a','b')": "d", "${t0}": "d", "1 + 2": "d", "3 * 4": "d", "5 div 2": "d",
     "7 mod 2": "d", "2 - 1": "?", "${t0} + 1": "d", "if(${t0} = 1, 'a', 'b')": "d",
+    # a function call or a reference makes the default an expression whatever follows it (also a minus, also for date-like types)
+    "today() - 7": "d", "${t0} - 1": "d", "now() - 0.04": "d", "date(decimal-date-time(today()) - 7)": "d",
 }
 CHOICES = [{"list_name": "c", "name": "abc", "label": "X"}, {"list_name": "c", "name": "y", "label": "Y"}]
 
@@ -160,8 +162,8 @@ def check_default(case, nodes, obs, ntr):
     if ty == "image" and "jr://images/" not in tok:
         expect_lit = "jr://images/" + tok
     cls = TOKENS[tok]
-    if cls == "d" and ty in DATE_LIKE and "-" in tok.replace("${t0}", ""):
-        cls = "?"
+    if cls == "d" and ty in DATE_LIKE and "-" in tok.replace("${t0}", "") and "(" not in tok and "${" not in tok:
+        cls = "?"  # a bare hyphen between literals may be date / coordinate text for these types
     is_static = all(norm_ws(t) == norm_ws(expect_lit) for t in texts) and not svs
     is_dynamic = all(t == "" for t in texts) and len(svs) == 1
     sigctx = f"{ty.split()[0]}"
